@@ -17,7 +17,7 @@ func New(seed uint64, stream string, batch int) R {
 	return R{rand.New(rand.NewPCG(seed*0x9e3779b97f4a7c15+uint64(batch)+1, h.Sum64()))}
 }
 
-func (r R) Pick(n int) int       { return r.IntN(n) }
+func (r R) Pick(n int) int        { return r.IntN(n) }
 func (r R) Chance(p float64) bool { return r.Float64() < p }
 
 var u32Boundary = []uint32{0, 1, 2, 9, 10, 99, 100, 255, 256, 0xffff, 0x10000, 65535999, 25565535, 25565536, 25600000, 99999999, 100000000, 100000001,
